@@ -49,6 +49,23 @@ pub fn check(ctx: &mut Ctx, doc: &Tree, path: &JPath, text: &str) {
             Sel::Ok(s) => res.push(s),
         }
     }
+    // the same four selections appended one after the other to the same buffers (a caller
+    // collecting rows): each appended part, delimited by its own offsets, is the fresh result
+    if ctx.case_no % 2 == 0 {
+        let (mut data, mut offs): (Vec<u8>, Vec<u64>) = (Vec::new(), Vec::new());
+        for round in 0..2 {
+            for m in 0..4 {
+                let (d0, o0) = (data.len(), offs.len());
+                if let Sel::Ok(_) = select_into(text.as_bytes(), &enc, m, &mut data, &mut offs) {
+                    let ok = data.len() >= d0 && offs.len() >= o0 && data[d0..] == res[m].data[..] && offs[o0..].iter().map(|x| x.wrapping_sub(d0 as u64)).collect::<Vec<u64>>() == res[m].offsets;
+                    if !ok {
+                        ctx.violation("shared-buffers/appended-part-differs-from-fresh-result", || format!("mode {} (pass {}): buffers had {} bytes / {} offsets; appended {} offsets {:?} ; fresh result {} ; {}", MODE_NAMES[m], round, d0, o0, hex(&data[d0.min(data.len())..]), &offs[o0.min(offs.len())..], show_sel(&res[m]), info()));
+                        return;
+                    }
+                }
+            }
+        }
+    }
     let ex = match exists(text.as_bytes(), &enc) {
         Ok(Some(Ok(b))) => b,
         Ok(_) => {
@@ -209,6 +226,14 @@ pub fn run(ctx: &mut Ctx) {
             let style = if rng.chance(1, 4) { refpath::RStyle { spacing: rng.bool(), kwcase: false, quoting: true, esc: true } } else { refpath::PLAIN };
             let text = refpath::render(&path, &style, &mut rng);
             check(ctx, &doc, &path, &text);
+            if round == 2 && i % 2 == 0 && !refpath::has_arith(&path) {
+                let other = refcodec::encode(&crate::gen::derive(&doc, &mut rng));
+                let enc = refcodec::encode(&doc);
+                selector_reuse(ctx, &enc, &other, &text, &|| format!("path={:?} doc={}", text, doc.show()));
+                if let Some(o2) = same_len_other_root(&enc, &doc) {
+                    selector_reuse(ctx, &enc, &o2, &text, &|| format!("path={:?} doc={}", text, doc.show()));
+                }
+            }
             if round == 1 && i % 2 == 1 && doc.nodes() < 300 && !matches!(refpath::eval(&path, &doc), refpath::Outcome::Unspecified) {
                 let plain = refpath::render(&path, &refpath::PLAIN, &mut rng);
                 let args = super::routes::path_args(&doc, plain.clone(), plain, &mut rng);
